@@ -8,6 +8,8 @@
 //	confdrive fuzz -n N -seed S -out fuzz.ndjson -inputs fuzz.hex [-sample file] [-texts recs.ndjson] [-hexin file]
 //	    random and mutated byte strings: only the outcome class (ok / err / panic) is recorded.
 //
+//	confdrive app | app1: the application's reading of its configuration, see app.go.
+//
 // The driver does not know the meaning of a document: it only writes text, calls the package and records.
 package main
 
@@ -63,6 +65,12 @@ type Rec struct {
 	Keys  []string `json:"keys"`
 	Depth int      `json:"depth"`
 	Q     []Entry  `json:"q"`
+	// second observation: the same questions asked again after the caller changed every value it had
+	// received the first time (Mut names what it did); a configuration answers the same again
+	Mut string  `json:"mut"`
+	Q2  []Entry `json:"q2"`
+	// what two holders of "the same" listing saw after each appended to its own (not judged: observation)
+	Shared []string `json:"shared"`
 }
 
 const (
@@ -86,6 +94,10 @@ func main() {
 		err = cmdDocs(os.Args[2:])
 	case "fuzz":
 		err = cmdFuzz(os.Args[2:])
+	case "app":
+		err = cmdApp(os.Args[2:])
+	case "app1":
+		err = cmdApp1(os.Args[2:])
 	default:
 		err = fmt.Errorf("unknown subcommand %s", os.Args[1])
 	}
@@ -188,7 +200,8 @@ func parse(api, text string) (c *conf.Conf, class, errs string) {
 	var err error
 	switch api {
 	case "bytes":
-		err = c.InitFromBytes([]byte(text))
+		parsedBytes = []byte(text)
+		err = c.InitFromBytes(parsedBytes)
 	case "file": // the way tars/application.go reads the server configuration
 		var nc *conf.Conf
 		if nc, err = conf.NewConf(scratchFile); err == nil {
@@ -204,6 +217,9 @@ func parse(api, text string) (c *conf.Conf, class, errs string) {
 }
 
 var scratchFile string
+
+// parsedBytes is the buffer last given to InitFromBytes (the caller's own storage).
+var parsedBytes []byte
 
 func sorted(s []string) []string {
 	out := append(make([]string, 0, len(s)), s...)
@@ -258,13 +274,16 @@ func allPaths(names []string, depth int) [][]string {
 }
 
 // query records what every getter says about every path; both documented spellings of a path are used.
-func query(c *conf.Conf, rec *Rec, r *rand.Rand) (class, errs string) {
+//
+// What the getters hand out is kept (held), so that the caller can afterwards change it the way a caller may
+// change any value it owns.
+func query(c *conf.Conf, rec *Rec, r *rand.Rand, held *holdings) (q []Entry, class, errs string) {
 	defer func() {
 		if p := recover(); p != nil {
 			class, errs = "panic", "getter: "+fmt.Sprint(p)
 		}
 	}()
-	rec.Q = make([]Entry, 0)
+	q = make([]Entry, 0)
 	for _, p := range allPaths(rec.Names, rec.Depth) {
 		dom := "/" + strings.Join(p, "/")
 		domQ := dom
@@ -272,10 +291,16 @@ func query(c *conf.Conf, rec *Rec, r *rand.Rand) (class, errs string) {
 			domQ = dom + "/" // "/A/B/C/" is documented as equivalent
 		}
 		e := Entry{P: append(make([]string, 0), p...), Map: make([][]string, 0), G: make([][]interface{}, 0)}
-		e.Subs = sorted(c.GetDomain(domQ))
-		e.Keys = sorted(c.GetDomainKey(domQ))
-		e.Lines = append(make([]string, 0), c.GetDomainLine(domQ)...)
+		subs, keys, lines := c.GetDomain(domQ), c.GetDomainKey(domQ), c.GetDomainLine(domQ)
+		e.Subs = sorted(subs)
+		e.Keys = sorted(keys)
+		e.Lines = append(make([]string, 0), lines...)
 		m := c.GetMap(domQ)
+		if held != nil {
+			held.lists = append(held.lists, heldList{"GetDomain", domQ, subs}, heldList{"GetDomainKey", domQ, keys},
+				heldList{"GetDomainLine", domQ, lines})
+			held.maps = append(held.maps, m)
+		}
 		mk := make([]string, 0, len(m))
 		for k := range m {
 			mk = append(mk, k)
@@ -299,15 +324,94 @@ func query(c *conf.Conf, rec *Rec, r *rand.Rand) (class, errs string) {
 			}
 		}
 		if len(e.Subs)+len(e.Keys)+len(e.Lines)+len(e.Map)+len(e.G) > 0 {
-			rec.Q = append(rec.Q, e)
+			q = append(q, e)
 		}
 	}
-	return "", ""
+	return q, "", ""
+}
+
+type heldList struct {
+	getter, path string
+	s            []string
+}
+
+// holdings: every listing and map one pass of questions received.
+type holdings struct {
+	lists []heldList
+	maps  []map[string]string
+}
+
+var mutations = []string{"sort-descending", "overwrite-elements", "reuse-from-start", "clear"}
+
+// mutate does to the received values what a caller is free to do to a value it owns.
+func (h *holdings) mutate(kind string) {
+	for i := range h.lists {
+		s := h.lists[i].s
+		switch kind {
+		case "sort-descending": // a caller that wants the listing ordered (here: the order least likely to be the written one)
+			sort.Sort(sort.Reverse(sort.StringSlice(s)))
+			if len(s) > 0 && sort.StringsAreSorted(s) { // all equal: make it visible anyway
+				s[0] = "~" + s[0]
+			}
+		case "overwrite-elements": // a caller that rewrites the entries in place (strips the value, say)
+			for j := range s {
+				s[j] = "~" + strings.SplitN(s[j], "=", 2)[0]
+			}
+		case "reuse-from-start": // a caller that filters in place / reuses the storage for something else
+			s = append(s[:0], "~intruder")
+			_ = s
+		case "clear":
+			for j := range s {
+				s[j] = ""
+			}
+		}
+	}
+	for _, m := range h.maps {
+		switch kind {
+		case "clear", "reuse-from-start":
+			for k := range m {
+				delete(m, k)
+			}
+			m["~intruder"] = "~"
+		default:
+			for k := range m {
+				m[k] = "~" + m[k]
+			}
+			m["k1"], m["k2"] = "~", "~"
+		}
+	}
+}
+
+// shared: two callers take the same listing and each appends an element of its own to what it got; reports
+// the holders whose own last element is no longer theirs (getter@path).
+func shared(c *conf.Conf, rec *Rec) (out []string) {
+	out = make([]string, 0)
+	defer func() {
+		if p := recover(); p != nil {
+			out = append(out, "panic: "+fmt.Sprint(p))
+		}
+	}()
+	for _, e := range rec.Q {
+		dom := "/" + strings.Join(e.P, "/")
+		for _, g := range []struct {
+			name string
+			get  func(string) []string
+		}{{"GetDomain", c.GetDomain}, {"GetDomainKey", c.GetDomainKey}, {"GetDomainLine", c.GetDomainLine}} {
+			a, b := g.get(dom), g.get(dom)
+			a = append(a, "~of-A")
+			b = append(b, "~of-B")
+			if a[len(a)-1] != "~of-A" || b[len(b)-1] != "~of-B" {
+				out = append(out, g.name+"@"+dom)
+			}
+		}
+	}
+	return out
 }
 
 type fixedDoc struct {
 	Fixed bool   `json:"fixed"`
 	API   string `json:"api"`
+	Mut   string `json:"mut"`
 	Lines []Line `json:"lines"`
 }
 
@@ -316,6 +420,7 @@ func cmdDocs(args []string) error {
 	in := fs.String("in", "", "abstract documents (ndjson)")
 	out := fs.String("out", "", "records (ndjson)")
 	seed := fs.Int64("seed", 1, "seed of the rendering variants")
+	mut := fs.String("mut", "", "what the caller does to the values it received before it asks again (default: by seed)")
 	fs.Parse(args)
 	f, err := os.Open(*in)
 	if err != nil {
@@ -339,12 +444,16 @@ func cmdDocs(args []string) error {
 		id++
 		r := rand.New(rand.NewSource(*seed*1000003 + int64(id)))
 		rec := Rec{Kind: "doc", ID: id}
+		forced := *mut
 		if raw[0] == '{' {
 			var fd fixedDoc
 			if err := json.Unmarshal(raw, &fd); err != nil {
 				return fmt.Errorf("doc %d: %v", id, err)
 			}
 			rec.Lines, rec.API = fd.Lines, fd.API
+			if fd.Mut != "" {
+				forced = fd.Mut
+			}
 		} else {
 			if err := json.Unmarshal(raw, &rec.Lines); err != nil {
 				return fmt.Errorf("doc %d: %v", id, err)
@@ -392,10 +501,35 @@ func cmdDocs(args []string) error {
 		}
 		c, class, errs := parse(rec.API, rec.Text)
 		rec.Class, rec.Err = class, errs
-		rec.Q = make([]Entry, 0)
+		rec.Q, rec.Q2, rec.Shared = make([]Entry, 0), make([]Entry, 0), make([]string, 0)
 		if class == "ok" {
-			if qc, qe := query(c, &rec, r); qc != "" {
-				rec.Class, rec.Err = qc, qe
+			// the spelling of the paths is the same in both passes (own generator, same seed)
+			ps := r.Int63()
+			held := &holdings{}
+			q, qc, qe := query(c, &rec, rand.New(rand.NewSource(ps)), held)
+			if qc == "" {
+				rec.Q = q
+				rec.Shared = shared(c, &rec)
+				rec.Mut = mutations[r.Intn(len(mutations))]
+				if forced != "" {
+					rec.Mut = forced
+				}
+				held.mutate(rec.Mut)
+				if rec.API == "bytes" && parsedBytes != nil { // the caller's buffer is the caller's, too
+					for j := range parsedBytes {
+						parsedBytes[j] = '<'
+					}
+				}
+				if rec.API == "file" {
+					os.WriteFile(scratchFile, []byte("<gone>k1=~</gone>"), 0o600)
+				}
+				var q2 []Entry
+				if q2, qc, qe = query(c, &rec, rand.New(rand.NewSource(ps)), nil); qc == "" {
+					rec.Q2 = q2
+				}
+			}
+			if qc != "" {
+				rec.Class, rec.Err, rec.Q, rec.Q2 = qc, qe, make([]Entry, 0), make([]Entry, 0)
 			}
 		}
 		if err := w.Write(rec); err != nil {
